@@ -486,16 +486,22 @@ func (p *Program) ExpandAutoRules(u *Universe) {
 			if c.Trusted || c.NoBody {
 				continue
 			}
-			for _, pr := range rule.Props {
-				has := false
-				for _, q := range c.Props {
-					if q == pr {
-						has = true
-					}
+			// A function that has an explicit contract of its own keeps that
+			// contract's properties; the template's clauses are then owned by the
+			// template's property alone (clause-level ownership), so the explicit
+			// clauses are not verified a second time in the template's property
+			// run. A function without an explicit contract belongs to the
+			// template's property as a whole.
+			own := func(e *spec.Clause) *spec.Clause {
+				if len(c.Props) == 0 || sameProps(c.Props, rule.Props) {
+					return e
 				}
-				if !has {
-					c.Props = append(c.Props, pr)
-				}
+				cp := *e
+				cp.Props = rule.Props
+				return &cp
+			}
+			if len(c.Props) == 0 {
+				c.Props = append(c.Props, rule.Props...)
 			}
 			for _, e := range rule.Requires {
 				if autoClauseApplies(e, f, c) {
@@ -504,17 +510,17 @@ func (p *Program) ExpandAutoRules(u *Universe) {
 			}
 			for _, e := range rule.Ensures {
 				if autoClauseApplies(e, f, c) {
-					c.Ensures = append(c.Ensures, e)
+					c.Ensures = append(c.Ensures, own(e))
 				}
 			}
 			for _, e := range rule.Guarantees {
 				if autoClauseApplies(e, f, c) {
-					c.Guarantees = append(c.Guarantees, e)
+					c.Guarantees = append(c.Guarantees, own(e))
 				}
 			}
 			for _, e := range rule.Invs {
 				if autoClauseApplies(e, f, c) {
-					c.Invs = append(c.Invs, e)
+					c.Invs = append(c.Invs, own(e))
 				}
 			}
 		}
@@ -570,6 +576,18 @@ func (p *Program) globalInitString(pkg, name string) (string, bool) {
 
 // autoClauseApplies: a template clause naming a parameter (e.g. ns) applies
 // only to functions that have a parameter or captured variable of that name.
+func sameProps(a, b []string) bool {
+	if len(a) != len(b) {
+		return false
+	}
+	for i := range a {
+		if a[i] != b[i] {
+			return false
+		}
+	}
+	return true
+}
+
 func autoClauseApplies(cl *spec.Clause, f *ssa.Function, c *spec.FuncContract) bool {
 	// `opt noauto label1 label2`: the function opts out of these template clauses
 	for _, l := range strings.Fields(c.Opts["noauto"]) {
